@@ -108,6 +108,11 @@ theorem C17_entry_points_open_transaction :
   intro e
   cases e <;> first | (intro _; rfl) | (intro h; cases h)
 
+/-- **A refused BEGIN leaves `in_transaction` False** (bridge to sqlite.py, rebuilt every run): `set_transaction_mode`
+    executes `BEGIN IMMEDIATE TRANSACTION` before it sets `cache.in_transaction = True` - what `prep` of the emitter mirrors
+    (inTx only after a successful BEGIN), so that a session which catches the error and goes on begins again. -/
+theorem C17_begin_before_flag : PonyVerif.Gen.TxnEntry.beginBeforeInTransaction = true := rfl
+
 /-- **Every session emits a word of L.**  For every table `opens` of entry points in which the directly reachable ones
     ask for a transaction (and a flush that sets `cache.immediate`): for every session mode (optimistic / immediate, ddl or not), pool state, program of
     queries / direct writes / flushes / commits / rollbacks with any statements and user try/excepts, every failure
